@@ -2,12 +2,18 @@
    Property theorems only; the proofs are in Proof/SkelCert.v (generic
    reflection) and Proof/SkelProofs.v (certificates for the guards extracted
    from /repo today). *)
-From Coq Require Import List Bool NArith Arith.
+From Coq Require Import List Bool NArith Arith String.
 Import ListNotations.
 From BT Require Import Model.Skel Model.SkelTie Proof.SkelCert Proof.SkelProofs.
 
 (* the guards the skeleton runs with are the ones computed from the source *)
-Theorem C04_tie : G = guards_of_gen /\ nothing_unsupported = true /\ rendezvous_channels = true.
+Theorem C04_tie : G = guards_of_gen /\ nothing_unsupported = true /\ rendezvous_channels = true /\
+  (* every blocking channel operation without an alternative is a known one; goroutines start where the skeleton has threads *)
+  bare_ops_ok = true /\ go_stmts_ok = true /\
+  (* the functions the skeleton mirrors by hand have the bodies it was written against *)
+  shapes_ok_for ["handleSignals"; "handleCommands"; "channelHandlers.shutdown"; "shutdown"; "Kill"; "recoverFromPanic"; "handlePanic";
+                 "readLoop"; "waitForReadLoop"; "initCancelReader"; "Send"; "handleResize"; "listenForResize"; "checkResize";
+                 "standardRenderer.start"; "standardRenderer.stop"; "standardRenderer.kill"; "standardRenderer.listen"]%string = true.
 Proof. vm_compute. repeat split. Qed.
 Print Assumptions C04_tie.
 
@@ -20,7 +26,7 @@ Print Assumptions C04_reachable_covered.
    b further hand-overs of commands of a batch in dispatch) is finite, bounded by the rank:
    Run does not wait for senders, commands, input or anything else *)
 Theorem C04_bounded : forall p s, Reach s -> struck s = true -> path_ok G s p ->
-  (N.of_nat (length p) <= rank_of Rk s + batch_slack * N.of_nat (nbatch p))%N.
+  (N.of_nat (List.length p) <= rank_of Rk s + batch_slack * N.of_nat (nbatch p))%N.
 Proof. exact run_returns_bounded. Qed.
 Print Assumptions C04_bounded.
 
